@@ -75,6 +75,9 @@ class Range:
             return None
         start, end = m.groups()
         if not start:
+            if not end:
+                # "bytes=-" names no range at all
+                return None
             return cls(-int(end), None)
         start = int(start)
         if not end:
